@@ -12,6 +12,9 @@ Static clauses:
   SCRATCH  an explicit scratch buffer handed to the CBOR reader holds the longest field / variant name of the WIRE tables
            (ciborium rejects names that do not fit; the library default of 4096 bytes does)
   PANIC    no undischarged panic site in the workspace closure of from_bytes / to_bytes / TirVersion::try_from
+  HANDCODE (conversions)  a `#[serde(from / into / try_from = ..)]` conversion on the wire path must re-wrap the representation:
+           one that calls workspace constructors, merges, filters, reorders or computes on one side of the codec only is a
+           finding (dropping zero amounts, excluded by C15's normal form, is accepted)
 Not decided: panics / aborts inside ciborium or serde on hostile bytes (dependency code); the stack actually needed per level
 of nesting (runtime quantity; DEPTH decides that the configured bound is a small constant).
 """
